@@ -34,3 +34,10 @@ prop("C09",
      level_note="Trusted: Lean kernel; extractor (key encoding); harness diff; Go map semantics as an association list; pointer identity modelled by allocation counters. Datum arithmetic is not part of this property (the payload is abstract in the theorems).",
      rule="exhaustive: all operation sequences up to length 3 (thorough 4) over 17 operations on 3 tuples (get/set/remove/expire/find x {a,-,a-}, emit, wrong-arity get and expire), each followed by an emit; seeded random sequences up to length 60 over a 7-string universe including separator/escape bytes, arity 0-3, types int/float/string, kinds 1-5. Non-trivial = distinct cases with at least two operations.",
      assumptions=["Go map semantics modelled as association list", "the Buckets value type is covered by C21, not here"])
+
+prop("C21",
+     gens=["Buckets"],
+     level_text="Proof: over the model of datum.Buckets (Observe's loop with the regenerated comparison and last-bucket fall-through, MakeBuckets, and the histogram clause of codegen) with floats as an order-preserving key plus NaN: every observation increments exactly one bucket by one - the first whose bound is >= the value, else the last, which for every declared histogram is the +Inf bucket (observe_exactly_one_bucket, target_is_first_fitting, nan_goes_to_last, declared_last_is_inf); bucket counts sum to the count and the sum is the fold of the observed values for every declaration and every observation sequence (sum_buckets_eq_count); exported bounds = declared + Inf when the first bound is > 0 (partial; the <= 0 case is a recorded finding with a kernel-checked counterexample). Tie: real MakeBuckets/Observe and real compiled declarations vs the model on a boundary grid with values at/just below/just above each bound, +-0, +-Inf, NaN.",
+     level_note="Trusted: Lean kernel; extractor (Observe condition/break/increment, codegen first-bound and sortedness tests); harness diff; IEEE comparison modelled by an order key (NaN unordered, -0 = +0); float addition is an abstract accumulator in the theorems and native binary64 addition in the executable model.",
+     rule="every 2- and 3-subset of the bound grid {-2,-1,0,1e-7,0.5,1,2,4,1000000.5} as a declaration, observed with NaN, +-Inf, +-0, -3.5, 1e308 and each bound / its predecessor / its successor (thorough: additionally each value alone); rejected declarations; seeded random observation sequences (length < 30) through compiled declarations and directly built range lists with and without an explicit +Inf range. Non-trivial = distinct cases with at least one observation.",
+     assumptions=["bucket bounds are never NaN (the parser produces only finite literals)"])
